@@ -331,6 +331,10 @@ func extractOption(nodes map[string]*chanCall, opts ...Option) (map[string][]any
 				continue
 			}
 			for name, c := range nodes {
+				if c.action.isPassthrough {
+					// a pass-through node has no option type either, but it is no sub graph: it takes no options
+					continue
+				}
 				if c.action.optionType == nil {
 					// subgraph
 					optMap[name] = append(optMap[name], opt)
@@ -350,6 +354,14 @@ func extractOption(nodes map[string]*chanCall, opts ...Option) (map[string][]any
 				return nil, fmt.Errorf("option has designated an unknown node: %s", path)
 			}
 			curNodeKey := path.path[0]
+
+			if curNode.action.isPassthrough {
+				// no option type like a sub graph, but neither a graph nor a component
+				if len(path.path) > 1 || len(opt.options) > 0 {
+					return nil, fmt.Errorf("cannot designate options or a sub path to pass-through node, path:%s", path)
+				}
+				continue
+			}
 
 			if len(path.path) == 1 {
 				if len(opt.options) == 0 {
